@@ -265,6 +265,9 @@ func genScenario(t *rapid.T, p genProfile) Scenario {
 				// it is stacked, verified and announced like any other report
 				cp := *prev
 				op.L = &cp
+				// ... half of the time as the very same value object (a source that
+				// caches what it decoded and hands out the pointer again)
+				op.SamePtr = rapid.Bool().Draw(t, "same_ptr")
 			} else {
 				op.L = g.genLayer(t, op.Src, p)
 			}
